@@ -259,6 +259,8 @@ def transformers(repo):
 
 def run(ctx):
     repo = ctx.repo
+    shared.control_index_monotone_rule(ctx, 'C06.q', ['cirq-core/cirq/transformers/', 'cirq-core/cirq/circuits/'], floor=2)
+    ctx.decided.append('C06.q placement bookkeeping keeps, per control key, the latest moment that reads it (running maximum)')
     shared.qudit_blind_dispatch_rule(ctx, 'C06.p', ['cirq-core/cirq/transformers/', 'cirq-google/cirq_google/transformers/'], floor=4)
     ctx.decided.append('C06.p transformers that recognise X/Z power gates by class look at their dimension before using Pauli facts')
     ctx.decided += [
@@ -892,7 +894,7 @@ def _placement_bookkeeping_rule(ctx, repo):
     ctx.decided.append('C06.n stratified_circuit: the dictionaries consulted by get_earliest_accommodating_moment_index are updated with the index at which the operation is placed, in '
                        'the same loop iteration as the placement (not with a preliminary index that a later step may still move)')
     ctx.rule('C06.n', 'recorded position == placed position: in _stratify_circuit every store into one of the dictionaries passed to get_earliest_accommodating_moment_index sits in the '
-             'same for-loop as the statement <moments>[i].append(op) and stores that same i', floor=3, style='MPT')
+             'same for-loop as the statement <moments>[i].append(op) and stores that same i (or the maximum of i and the previous entry of the same dictionary)', floor=3, style='MPT')
     m = repo.module('cirq-core/cirq/transformers/stratify.py')
     fn = m.defs.get('_stratify_circuit')
     if fn is None:
@@ -925,7 +927,12 @@ def _placement_bookkeeping_rule(ctx, repo):
             outer = lp
             while outer is not None and outer is not pl_loop:
                 outer = loop_of(outer)
-            ok = outer is pl_loop and isinstance(s.value, ast.Name) and s.value.id == idx
+            v_ = s.value
+            same_idx = isinstance(v_, ast.Name) and v_.id == idx
+            # a running maximum over the placed index and the previous entry of the same dictionary (readers of one key commute, C06.q)
+            run_max = isinstance(v_, ast.Call) and call_name(v_) == 'max' and any(isinstance(a_, ast.Name) and a_.id == idx for a_ in v_.args) \
+                and all((isinstance(a_, ast.Name) and a_.id == idx) or d in ast.unparse(a_) for a_ in v_.args)
+            ok = outer is pl_loop and (same_idx or run_max)
             ctx.ob('C06.n', f'cirq.transformers.stratify._stratify_circuit:{d}#{k}', ok, '' if ok else
                    f'`{ast.unparse(s)}` (line {s.lineno}) is not made where the operation is placed (`{ast.unparse(pl)}`, line {pl.lineno}): the index recorded for later conflict checks '
                    'can differ from the moment the operation ends up in, so a later operation is scheduled before one it must follow', m.rel, s.lineno)
